@@ -87,7 +87,8 @@ P == CASE Profile = "c04q" ->
             [slots |-> <<<<"sys", "g.h">>, <<"bld", "g.h">>>>,
              bodies |-> {"def"}, stmts |-> {"ag"}, maxmain |-> 1, nmains |-> 1,
              idirs |-> {<<Iu("bld"), Iu("sys")>>, <<Iu("sys"), Iu("bld")>>},
-             forced |-> {<<>>}, nents |-> 2, plats |-> <<"p1", "P1">>]
+             \* (-include g.h: found through the -I list, so it names another file for either command)
+             forced |-> {<<>>, <<"g.h">>}, nents |-> 2, plats |-> <<"p1", "P1">>]
       [] Profile = "c06s" ->
             \* C06/C10, small enough to enumerate EVERY scenario: one header name beside the mains and in the -I
             \* directory whose body depends on X, two mains that include it in either form, two commands over one
